@@ -18,6 +18,7 @@ package types
 
 import (
 	"fmt"
+	"sort"
 )
 
 type SSHKey struct {
@@ -58,15 +59,19 @@ func (s *SSHConfig) DecodeMapstructure(value interface{}) error {
 	if !ok {
 		return fmt.Errorf("invalid ssh config type %T", value)
 	}
+	// range over a map is random: sort by ID so the same model always decodes into the same slice
+	ids := make([]string, 0, len(v))
+	for id := range v {
+		ids = append(ids, id)
+	}
+	sort.Strings(ids)
 	result := make(SSHConfig, len(v))
-	i := 0
-	for id, path := range v {
+	for i, id := range ids {
 		key := SSHKey{ID: id}
-		if path != nil {
+		if path := v[id]; path != nil {
 			key.Path = fmt.Sprint(path)
 		}
 		result[i] = key
-		i++
 	}
 	*s = result
 	return nil
